@@ -207,6 +207,9 @@ static void kinds_coalesced(hx_buf *out, const hx_buf *kinds) {
     int last = 0;
     for (size_t i = 0; i < kinds->n; i++) {
         int k = kinds->p[i];
+        /* raw header/trailer data is flushed at every chunk end, so the number and position of these
+         * callbacks follow the chunking by design; their concatenated content is compared instead */
+        if (k == CB_REQ_HEADER_DATA || k == CB_RES_HEADER_DATA || k == CB_REQ_TRAILER_DATA || k == CB_RES_TRAILER_DATA) continue;
         int co = (k == CB_REQ_BODY || k == CB_RES_BODY || k == CB_REQ_HEADER_DATA || k == CB_RES_HEADER_DATA || k == CB_REQ_TRAILER_DATA ||
                   k == CB_RES_TRAILER_DATA || k == CB_REQ_BODY_TX || k == CB_RES_BODY_TX || k == CB_REQ_FILE);
         if (co && k == last) continue;
@@ -221,6 +224,10 @@ void hx_digest(const hx_obs *o, hx_buf *out, int flags) {
         const hx_txrec *r = &o->tx[i];
         hb_printf(out, "tx %d kinds=", i);
         if (flags & DG_COALESCE) kinds_coalesced(out, &r->kinds); else hb_put(out, r->kinds.p, r->kinds.n);
+        hb_printf(out, "\n tx %d rawreq(%zu)=\"", i, r->raw[0].n); hb_esc(out, r->raw[0].p, r->raw[0].n > 2048 ? 2048 : r->raw[0].n);
+        hb_printf(out, "\" h=%016llx\n tx %d rawres(%zu)=\"", (unsigned long long) hx_fnv(r->raw[0].p, r->raw[0].n, 0), i, r->raw[1].n);
+        hb_esc(out, r->raw[1].p, r->raw[1].n > 2048 ? 2048 : r->raw[1].n);
+        hb_printf(out, "\" h=%016llx", (unsigned long long) hx_fnv(r->raw[1].p, r->raw[1].n, 0));
         hb_printf(out, "\n tx %d reqbody(%zu)=\"", i, r->body[0].n); hb_esc(out, r->body[0].p, r->body[0].n > 4096 ? 4096 : r->body[0].n);
         hb_printf(out, "\" h=%016llx\n tx %d resbody(%zu)=\"", (unsigned long long) hx_fnv(r->body[0].p, r->body[0].n, 0), i, r->body[1].n);
         hb_esc(out, r->body[1].p, r->body[1].n > 4096 ? 4096 : r->body[1].n);
